@@ -264,6 +264,11 @@ class ScriptProc(CompartmentedModel):
         elif op == 'CLOCK': self.log.append(f"clock={bits(self.currentSimulationTime())}")
         elif op == 'CC': self.changeCompartment(a[1], self.cname(a[2]))
         elif op == 'SETC': self.setCompartment(a[1], self.cname(a[2]))
+        # (a script marked 'bulk' uses the ...From forms of the topology API, documented to do the same thing element by element)
+        elif op == 'ADDNODE' and self.spec.get('bulk'): self.addNodesFrom([a[1]], c=None if a[2] is None else self.cname(a[2]))
+        elif op == 'RMNODE' and self.spec.get('bulk'): self.removeNodesFrom(iter([a[1]]))
+        elif op == 'ADDEDGE' and self.spec.get('bulk'): self.addEdgesFrom([(a[1], a[2])])
+        elif op == 'RMEDGE' and self.spec.get('bulk'): self.removeEdgesFrom(iter([(a[1], a[2])]))
         elif op == 'ADDNODE': self.addNode(a[1], c=None if a[2] is None else self.cname(a[2]))
         elif op == 'RMNODE': self.removeNode(a[1])
         elif op == 'ADDEDGE': self.addEdge(a[1], a[2])
@@ -492,10 +497,11 @@ def gillespie_oracle(g, rs, cur, t, e):
 def is_member(l, e):
     """is `e` an element of the locus the event was registered on, judged on the tracked set itself
     (a SingletonLocus stands for one element of the model's S-I locus)"""
+    # (by walking the tracked set, not by the locus' own `in`: the oracle must not inherit a membership test that has gone wrong)
     if type(l).__name__ == 'SingletonLocus':
         p = l.process()
-        return e == l._value and e in p.locus(p.SI)
-    return e in l
+        return e == l._value and any(x == e for x in p.locus(p.SI))
+    return any(x == e for x in l)
 
 
 def fresh_twin(case, values, snap):
